@@ -113,7 +113,14 @@ var c11Descs = map[int][]string{
 	8:  {"SvcA"},         // the same as 1 in a later version of the schema: Req declares a new field before id (c11Reordered)
 	9:  {"SvcD"},         // '*'-kind rules (not in the alphabet of the exhaustive histories: c11StarHistories)
 	10: {"SvcY"},         // a valid unary method and a streaming method that cannot be bound (c11StarHistories)
+	11: {"SvcA"},         // SvcA as redeployed without its method A2 (c11Omit): same service names as 1, another method set
 }
+
+// methods a descriptor set leaves out of its services
+var c11Omit = map[int]map[int]bool{11: {2: true}}
+
+// the file being built leaves these methods out (set around the build of a descriptor set)
+var c11omitNow map[int]bool
 
 // descriptor sets whose Req message is {tenant = 3; id = 1} (declaration order differs, numbers do not)
 var c11Reordered = map[int]bool{8: true}
@@ -136,7 +143,7 @@ func c11MethodsOf(desc int) []c11Method {
 	var ms []c11Method
 	for _, svc := range c11Descs[desc] {
 		for _, m := range c11Methods {
-			if m.svc == svc {
+			if m.svc == svc && !c11Omit[desc][m.id] {
 				ms = append(ms, m)
 			}
 		}
@@ -252,7 +259,7 @@ func c11BuildFileWith(path string, svcs []string, common protoreflect.FileDescri
 	for _, svc := range svcs {
 		sd := &descriptorpb.ServiceDescriptorProto{Name: proto.String(svc)}
 		for _, m := range c11Methods {
-			if m.svc != svc {
+			if m.svc != svc || c11omitNow[m.id] {
 				continue
 			}
 			md := &descriptorpb.MethodDescriptorProto{Name: proto.String(m.name), InputType: proto.String(".c11.Req"), OutputType: proto.String(".c11.Rep")}
@@ -395,7 +402,9 @@ func c11Setup() *c11Env {
 			e.more[id] = append(fs[1:], common)
 			continue
 		}
+		c11omitNow = c11Omit[id]
 		e.files[id] = c11BuildFileWith(fmt.Sprintf("c11/d%d.proto", id), svcs, nil, c11Reordered[id])
+		c11omitNow = nil
 	}
 	e.local = c11BuildFile("c11/local.proto", []string{"SvcA", "SvcL", "SvcY"})
 	for i := 0; i < 4; i++ {
@@ -721,6 +730,11 @@ func c11StarHistories(each func(ops []string, label string)) {
 	for _, h := range [][]string{{"R0.9", "R1.1", "D0", "R1.1"}, {"R0.1", "R1.9", "D0", "R1.9", "D1"}, {"L0.1", "R0.9", "R1.9"}, {"R0.9", "R1.9", "D0", "D1", "R2.1"},
 		{"R0.5", "R1.9"}, {"R0.9", "R0.1", "R0.9"}, {"R1.9", "R2.2", "D1", "R2.2", "R1.9"}} {
 		each(h, "star-rules")
+	}
+	// a connection re-registered after its backend was redeployed with the same services and another method set
+	for _, h := range [][]string{{"R0.1", "R0.11"}, {"R0.11", "R0.1"}, {"R0.1", "R1.11", "D0"}, {"R0.11", "R1.1", "D1", "R0.1"}, {"R0.2", "R0.11", "R0.2"},
+		{"L0.1", "R1.11", "R1.1", "R1.11"}, {"R2.11", "R2.5", "R2.11", "D2"}, {"R0.8", "R0.11", "R0.8"}} {
+		each(h, "same-services-other-methods")
 	}
 	for _, a := range c11Alphabet {
 		each([]string{a, "L1.10"}, "fails-in-a-streaming-method")
